@@ -20,6 +20,7 @@ LEVEL_TEXT = ('static unit analysis (absolute/relative/length) of the block allo
 LEVEL_NOTE = 'roles of names are bound from parameter names and field names of the allocator; reserve() is unreachable from alloc/free and noted only'
 LEVEL_TEXT_ADD = ' Also: address-in-partition test before free indexes the slot array; num_ids/id_offset/default-group ids agree with the id window; login count stored before the allocators are rebuilt.'
 LEVEL_TEXT_ADD += ' Rounds e-f: a client-id change rebuilds every allocator family after the id is stored.'
+LEVEL_TEXT_ADD += ' Rounds g-h: alloc refuses only after searching the free blocks; the id pairing rule of C17 is run as C16.pair.'
 LEVEL_TEXT = (globals().get('LEVEL_TEXT') or EXPLANATION) + LEVEL_TEXT_ADD
 TECHNIQUE = 'static analysis: dimension/unit type inference over expressions + guard and pairing rules'
 
